@@ -80,6 +80,11 @@ def run(res, tier):
     devs = DEV if tier == "thorough" else DEV[:6]
     for dv in devs:
         cases.append(("collimator", CURRENTS["collimator"][1], 64, ("Ts", 128), 2.0, 1.2, tuple(dv)))
+    # many steps per period (the program's default is 1000): the wake changes very little from step to step; start far from equilibrium
+    for imp in (("collimator", "wall") if tier == "thorough" else ("collimator",)):
+        cases.append((imp, CURRENTS[imp][1], 64, ("Ts", 1000), 2.0, 2.0, ()))
+        if tier == "thorough":
+            cases.append((imp, CURRENTS[imp][1], 64, ("Ts", 512), 2.0, 0.6, ()))
 
     def do(c):
         imp, cur, n, (mode, steps), td, zoom, dev = c
